@@ -73,6 +73,215 @@ fn c09_case(rng: &mut Rng, release: bool) -> String {
         release, n, MAXDEV, ng, assign, dup, md.num_subdevices(), sim.join(","), res, groups, log.len())
 }
 
+// ---------------------------------------------------------------------------------------------
+// C08: PDO configuration, the process-data mapping and an end-to-end byte probe.
+const MAXDEV8: usize = 16;
+const PA: usize = 24;
+const PB: usize = 96;
+const PC: usize = 600;
+
+#[derive(Default)]
+struct Groups8 {
+    a: SubDeviceGroup<MAXDEV8, PA>,
+    b: SubDeviceGroup<MAXDEV8, PB>,
+    c: SubDeviceGroup<MAXDEV8, PC>,
+}
+
+struct GenDev {
+    desc: DeviceDesc,
+    over: Vec<(u16, u16)>,
+}
+
+fn gen_bits(rng: &mut Rng) -> u8 {
+    match rng.below(8) { 0 => 1, 1 => 2, 2 => 4, 3 | 4 => 8, 5 => 16, 6 => *rng.pick(&[32u8, 64, 24, 12]), _ => rng.range(1, 64) as u8 }
+}
+
+fn gen_dev8(rng: &mut Rng, i: usize, big: bool) -> GenDev {
+    use vharness::sim::eeprom::*;
+    let kind = rng.below(5); // 0 coupler, 1-2 eeprom io, 3-4 coe
+    if kind == 0 { return GenDev { desc: DeviceDesc::coupler(&format!("CPL{:02}", i)), over: vec![] }; }
+    let coe = kind >= 3;
+    let mut d = if coe { let mut d = DeviceDesc::coe_io(&format!("COE{:02}", i), 64 + 16 * rng.below(3) as u16, 0, 0); d.sync_managers.truncate(2); d.fmmu_usage.clear(); d } else { DeviceDesc { name: format!("IO{:02}x", i), ..Default::default() } };
+    // process data sync managers: up to 3 per direction, order random
+    let n_out = *rng.pick(&[0usize, 1, 1, 1, 2, 3]);
+    let n_in = *rng.pick(&[0usize, 1, 1, 1, 2, 3]);
+    let mut kinds: Vec<u8> = std::iter::repeat(SM_OUTPUTS).take(n_out).chain(std::iter::repeat(SM_INPUTS).take(n_in)).collect();
+    if rng.chance(1, 3) { for k in (1..kinds.len()).rev() { let j = rng.below(k as u64 + 1) as usize; kinds.swap(k, j); } }
+    let contiguous = rng.chance(1, 2);
+    let mut addr: u16 = 0x1100;
+    let (mut nrx, mut ntx) = (0u16, 0u16);
+    let mut over = Vec::new();
+    for usage in kinds {
+        let smi = d.sync_managers.len() as u8;
+        let npdo = if big { rng.range(1, 3) } else { *rng.pick(&[0u64, 1, 1, 1, 2, 3]) } as usize;
+        let mut bits: u32 = 0;
+        for _ in 0..npdo {
+            if (usage == SM_OUTPUTS && nrx >= 8) || (usage == SM_INPUTS && ntx >= 8) { break; }
+            let nent = if big { rng.range(2, 6) } else { rng.range(1, 3) } as usize;
+            let (index, eidx) = if usage == SM_OUTPUTS { nrx += 1; (0x1600 + nrx - 1, 0x7000 + 0x10 * (nrx - 1)) } else { ntx += 1; (0x1A00 + ntx - 1, 0x6000 + 0x10 * (ntx - 1)) };
+            let entries: Vec<PdoEntryDesc> = (0..nent).map(|e| PdoEntryDesc { index: eidx, sub: e as u8 + 1, name_idx: 0, data_type: 5, bit_len: if big { *rng.pick(&[32u8, 64, 64]) } else { gen_bits(rng) }, flags: 0 }).collect();
+            let mut pb: u32 = entries.iter().map(|e| e.bit_len as u32).sum();
+            if rng.chance(1, 6) { let mul = rng.range(2, 4) as u16; over.push((index, mul)); pb *= mul as u32; }
+            bits += pb;
+            let p = PdoDesc { index, sm: smi, sync: 0, name_idx: 0, flags: 0, entries };
+            if usage == SM_OUTPUTS { d.rx_pdos.push(p) } else { d.tx_pdos.push(p) }
+        }
+        let bytes = ((bits + 7) / 8) as u16;
+        let enable = if bits == 0 && rng.chance(1, 2) { 0 } else { 1 };
+        d.sync_managers.push(SmDesc { start: addr, len: bytes, control: if usage == SM_OUTPUTS { 0x64 } else { 0x20 }, enable, usage });
+        addr = addr.wrapping_add(bytes).wrapping_add(if contiguous { 0 } else { *rng.pick(&[1u16, 2, 7, 16, 64]) });
+    }
+    // FMMU usage list
+    if coe {
+        d.fmmu_usage = match rng.below(8) { 0 => vec![FMMU_INPUTS, FMMU_OUTPUTS], 1 => vec![FMMU_UNUSED, FMMU_OUTPUTS, FMMU_INPUTS, FMMU_SM_STATUS], 2 => vec![FMMU_OUTPUTS, FMMU_SM_STATUS], 3 => vec![FMMU_OUTPUTS, FMMU_INPUTS, FMMU_INPUTS, FMMU_OUTPUTS], _ => vec![FMMU_OUTPUTS, FMMU_INPUTS, FMMU_SM_STATUS] };
+    } else {
+        d.fmmu_usage = d.sync_managers.iter().map(|s| if s.usage == SM_OUTPUTS { FMMU_OUTPUTS } else { FMMU_INPUTS }).collect();
+        if rng.chance(1, 8) { d.fmmu_usage.clear(); }
+    }
+    if rng.chance(1, 4) {
+        d.fmmu_ex = Some(d.sync_managers.iter().enumerate().filter(|(_, s)| s.usage == SM_OUTPUTS || s.usage == SM_INPUTS).map(|(k, _)| [0u8, k as u8, 0]).collect());
+    }
+    GenDev { desc: d, over }
+}
+
+/// Where a guard's slice sits in the image: the image is filled with position patterns first.
+fn measure<const P: usize>(g: &SubDeviceGroup<MAXDEV8, P, ethercrab::DefaultLock, ethercrab::subdevice_group::Op>, md: &MainDevice<'_>) -> Vec<(u16, i64, usize, i64, usize)> {
+    let lo: Vec<u8> = (0..P).map(|i| i as u8).collect();
+    let hi: Vec<u8> = (0..P).map(|i| (i >> 8) as u8).collect();
+    let mut out = Vec::new();
+    let n = g.len();
+    for k in 0..n {
+        let sd = g.subdevice(md, k).unwrap();
+        g.verif_pdi_set(&lo);
+        let (il, ol, i0, o0) = { let io = sd.io_raw(); (io.inputs().len(), io.outputs().len(), io.inputs().first().copied(), io.outputs().first().copied()) };
+        g.verif_pdi_set(&hi);
+        let (i1, o1) = { let io = sd.io_raw(); (io.inputs().first().copied(), io.outputs().first().copied()) };
+        let pos = |a: Option<u8>, b: Option<u8>| match (a, b) { (Some(a), Some(b)) => a as i64 | ((b as i64) << 8), _ => -1 };
+        out.push((sd.configured_address(), pos(i0, i1), il, pos(o0, o1), ol));
+    }
+    g.verif_pdi_set(&vec![0u8; P]);
+    out
+}
+
+struct GState { res: String, lens: (usize, usize), wins: Vec<(u16, i64, usize, i64, usize)> }
+
+fn c08_case(rng: &mut Rng, release: bool) -> String {
+    use vharness::sim::eeprom::{SM_INPUTS, SM_OUTPUTS};
+    vharness::clock::reset();
+    let (mut tx, mut rx, pl) = net::storage::<16, FRAME>();
+    let timeouts = Timeouts { state_transition: Duration::from_millis(300), ..Timeouts::default() };
+    let md: &'static MainDevice<'static> = Box::leak(Box::new(MainDevice::new(pl, timeouts, MainDeviceConfig { dc_static_sync_iterations: 0, ..Default::default() })));
+    let n = match rng.below(8) { 0 => 1, 1 => 16, 2 => rng.range(9, 16), _ => rng.range(1, 8) } as usize;
+    let ng = rng.range(1, 3) as usize;
+    let assign: Vec<usize> = (0..n).map(|_| rng.below(ng as u64) as usize).collect();
+    let big = rng.chance(1, 10);
+    let gens: Vec<GenDev> = (0..n).map(|i| gen_dev8(rng, i, big)).collect();
+    let overs: Vec<&'static [(u16, u16)]> = gens.iter().map(|g| &*Box::leak(g.over.clone().into_boxed_slice())).collect();
+    let mut devs: Vec<Device> = Vec::new();
+    for g in &gens {
+        let mut dev = Device::new(g.desc.clone(), EscInfo::default());
+        dev.sii.read8 = rng.chance(1, 2);
+        if !g.over.is_empty() { dev.al.strict = false; }
+        devs.push(dev);
+    }
+    let mut seg = Segment::chain(devs);
+    let mut log = Vec::new();
+    let assign2 = assign.clone();
+    // what the description requires, per process-data sync manager: (device, sm, usage, start, bytes)
+    let mut want: Vec<Vec<(usize, u8, u16, u32)>> = Vec::new();
+    for g in &gens {
+        let d = &g.desc;
+        let mut w = Vec::new();
+        for (k, s) in d.sync_managers.iter().enumerate() {
+            if s.usage != SM_OUTPUTS && s.usage != SM_INPUTS { continue; }
+            let list = if s.usage == SM_OUTPUTS { &d.rx_pdos } else { &d.tx_pdos };
+            let bits: u32 = list.iter().filter(|p| p.sm as usize == k).map(|p| p.bit_len() * g.over.iter().find(|(i, _)| *i == p.index).map(|(_, m)| *m as u32).unwrap_or(1)).sum();
+            w.push((k, s.usage, s.start, (bits + 7) / 8));
+        }
+        want.push(w);
+    }
+    let overs2 = overs.clone();
+    let r = std::panic::catch_unwind(std::panic::AssertUnwindSafe(|| {
+        let groups = match net::run(async { md.init::<MAXDEV8, _>(now_ns, Groups8::default(), |g: &Groups8, sd| {
+            let pos = (sd.configured_address() - 0x1000) as usize;
+            Ok(match assign2.get(pos).copied().unwrap_or(0) { 0 => &g.a, 1 => &g.b, _ => &g.c })
+        }).await }, &mut tx, &mut rx, &mut seg, &mut log, 400_000) {
+            RunEnd::Done(Ok(g)) => g,
+            RunEnd::Done(Err(e)) => return Err(format!("init: {:?}", e)),
+            _ => return Err("init: HANG".into()),
+        };
+        let Groups8 { mut a, mut b, mut c } = groups;
+        for mut sd in a.iter_mut(md) { let p = (sd.configured_address() - 0x1000) as usize; sd.set_oversampling(overs2[p]); }
+        for mut sd in b.iter_mut(md) { let p = (sd.configured_address() - 0x1000) as usize; sd.set_oversampling(overs2[p]); }
+        for mut sd in c.iter_mut(md) { let p = (sd.configured_address() - 0x1000) as usize; sd.set_oversampling(overs2[p]); }
+        macro_rules! up { ($g:expr) => {{
+            match net::run($g.into_op(md), &mut tx, &mut rx, &mut seg, &mut log, 400_000) {
+                RunEnd::Done(Ok(g)) => { let lens = g.verif_lens(); let wins = measure(&g, md); (GState { res: "Ok".into(), lens, wins }, Some(g)) }
+                RunEnd::Done(Err(e)) => (GState { res: format!("{:?}", e), lens: (0, 0), wins: vec![] }, None),
+                _ => (GState { res: "HANG".into(), lens: (0, 0), wins: vec![] }, None),
+            }
+        }}; }
+        // groups are brought up in a random order
+        let order = rng.below(6);
+        let (mut sa, mut sb, mut sc) = (None, None, None);
+        let (mut ga, mut gb, mut gc) = (None, None, None);
+        let mut a = Some(a); let mut b = Some(b); let mut c = Some(c);
+        for step in 0..3 {
+            let which = [[0, 1, 2], [0, 2, 1], [1, 0, 2], [1, 2, 0], [2, 0, 1], [2, 1, 0]][order as usize][step];
+            match which { 0 => { let (s, g) = up!(a.take().unwrap()); sa = Some(s); ga = g; } 1 => { let (s, g) = up!(b.take().unwrap()); sb = Some(s); gb = g; } _ => { let (s, g) = up!(c.take().unwrap()); sc = Some(s); gc = g; } }
+        }
+        // ---- end-to-end probe: one cycle per group, every device's memory watched
+        let mut probes: Vec<String> = Vec::new();
+        let fill = |seg: &mut Segment, rng: &mut Rng| {
+            for (p, w) in want.iter().enumerate() { for (_k, usage, start, bytes) in w { if *usage == SM_INPUTS { for a in 0..*bytes as usize { let ad = *start as usize + a; if ad < 0x10000 { seg.devices[p].mem[ad] = rng.byte() | 1; } } } } }
+        };
+        macro_rules! probe { ($g:expr, $gi:expr, $P:expr) => {{ if let Some(g) = $g.as_ref() {
+            fill(&mut seg, rng);
+            let mut written: Vec<(usize, Vec<u8>)> = Vec::new();
+            for k in 0..g.len() { let sd = g.subdevice(md, k).unwrap(); let p = (sd.configured_address() - 0x1000) as usize; let mut o = sd.outputs_raw_mut(); for x in o.iter_mut() { *x = rng.byte() | 1; } written.push((p, o.to_vec())); }
+            let before: Vec<Vec<u8>> = seg.devices.iter().map(|d| d.mem[0x1000..].to_vec()).collect();
+            let mut img_o = [vec![0u8; PA], vec![0u8; PB], vec![0u8; PC]];
+            if let Some(x) = ga.as_ref() { x.verif_pdi_get(&mut img_o[0]); } if let Some(x) = gb.as_ref() { x.verif_pdi_get(&mut img_o[1]); } if let Some(x) = gc.as_ref() { x.verif_pdi_get(&mut img_o[2]); }
+            let rr = net::run(g.tx_rx(md), &mut tx, &mut rx, &mut seg, &mut log, 400_000);
+            let mut bad: Vec<String> = Vec::new();
+            match rr { RunEnd::Done(Ok(_)) => {}, RunEnd::Done(Err(e)) => bad.push(format!("tx_rx: {:?}", e)), _ => bad.push("tx_rx: HANG".into()) }
+            let mut allowed: Vec<Vec<bool>> = seg.devices.iter().map(|_| vec![false; 0xf000]).collect();
+            for (p, bytes) in &written {
+                let mut exp: Vec<u8> = Vec::new();
+                for (_k, usage, start, len) in &want[*p] { if *usage == SM_OUTPUTS { for a in 0..*len as usize { let ad = *start as usize + a; if ad >= 0x1000 && ad < 0x10000 { exp.push(seg.devices[*p].mem[ad]); allowed[*p][ad - 0x1000] = true; } } } }
+                if &exp != bytes { bad.push(format!("outputs of device {}: wrote {:?}, its output memory holds {:?}", p, bytes, exp)); }
+            }
+            for k in 0..g.len() { let sd = g.subdevice(md, k).unwrap(); let p = (sd.configured_address() - 0x1000) as usize; let got = sd.inputs_raw().to_vec();
+                let mut exp: Vec<u8> = Vec::new();
+                for (_k, usage, start, len) in &want[p] { if *usage == SM_INPUTS { for a in 0..*len as usize { let ad = *start as usize + a; if ad < 0x10000 { exp.push(seg.devices[p].mem[ad]); } } } }
+                if exp != got { bad.push(format!("inputs of device {}: its input memory holds {:?}, the image shows {:?}", p, exp, got)); } }
+            for (p, d) in seg.devices.iter().enumerate() { for a in 0..0xf000 { if d.mem[0x1000 + a] != before[p][a] && !allowed[p][a] { bad.push(format!("memory of device {} at {:#06x} changed from {} to {}", p, 0x1000 + a, before[p][a], d.mem[0x1000 + a])); break; } } }
+            let mut img_n = [vec![0u8; PA], vec![0u8; PB], vec![0u8; PC]];
+            if let Some(x) = ga.as_ref() { x.verif_pdi_get(&mut img_n[0]); } if let Some(x) = gb.as_ref() { x.verif_pdi_get(&mut img_n[1]); } if let Some(x) = gc.as_ref() { x.verif_pdi_get(&mut img_n[2]); }
+            for o in 0..3 { if o != $gi && img_o[o] != img_n[o] { bad.push(format!("the image of group {} changed during a cycle of group {}", o, $gi)); } }
+            let _ = $P;
+            probes.push(format!("{{\"group\":{},\"bad\":[{}]}}", $gi, bad.iter().take(4).map(|s| format!("{:?}", s)).collect::<Vec<_>>().join(",")));
+        } }}; }
+        probe!(ga, 0usize, PA); probe!(gb, 1usize, PB); probe!(gc, 2usize, PC);
+        Ok((vec![sa.unwrap(), sb.unwrap(), sc.unwrap()], probes))
+    }));
+    let devj: Vec<String> = gens.iter().enumerate().map(|(p, g)| { let d = &g.desc; let sim = &seg.devices[p];
+        let sms: Vec<String> = d.sync_managers.iter().map(|s| format!("[{},{},{},{}]", s.usage, s.start, s.enable & 1, s.control)).collect();
+        let pd = |l: &Vec<vharness::sim::eeprom::PdoDesc>| l.iter().map(|p| format!("[{},{},[{}]]", p.index, p.sm, p.entries.iter().map(|e| e.bit_len.to_string()).collect::<Vec<_>>().join(","))).collect::<Vec<_>>().join(",");
+        let smr: Vec<String> = (0..d.sync_managers.len()).map(|k| { let r = sim.sm(k); format!("[{},{},{},{}]", r.start, r.len, r.control, r.activate & 1) }).collect();
+        let fm: Vec<String> = (0..16).map(|k| { let f = sim.fmmu(k); format!("[{},{},{},{},{},{},{},{},{}]", f.logical_start, f.len, f.start_bit, f.end_bit, f.phys_start, f.phys_bit, f.read as u8, f.write as u8, f.enabled as u8) }).collect();
+        format!("{{\"coe\":{},\"sms\":[{}],\"fmmu_usage\":{:?},\"fmmu_ex\":{},\"rx\":[{}],\"tx\":[{}],\"over\":[{}],\"want\":[{}],\"sm_regs\":[{}],\"fmmu_regs\":[{}],\"al\":{},\"strict\":{}}}",
+            d.has_coe(), sms.join(","), d.fmmu_usage, d.fmmu_ex.is_some(), pd(&d.rx_pdos), pd(&d.tx_pdos), g.over.iter().map(|(a, b)| format!("[{},{}]", a, b)).collect::<Vec<_>>().join(","),
+            want[p].iter().map(|(k, u, s, l)| format!("[{},{},{},{}]", k, u, s, l)).collect::<Vec<_>>().join(","), smr.join(","), fm.join(","), sim.al_state(), sim.al.strict) }).collect();
+    let body = match r {
+        Err(_) => "\"res\":\"PANIC\"".to_string(),
+        Ok(Err(e)) => format!("\"res\":\"Err\",\"err\":{:?}", e),
+        Ok(Ok((gs, probes))) => format!("\"res\":\"Ok\",\"groups\":[{}],\"probes\":[{}]", gs.iter().map(|g| format!("{{\"res\":{:?},\"pdi_len\":{},\"read_len\":{},\"wins\":[{}]}}", g.res, g.lens.0, g.lens.1,
+            g.wins.iter().map(|w| format!("[{},{},{},{},{}]", w.0, w.1, w.2, w.3, w.4)).collect::<Vec<_>>().join(","))).collect::<Vec<_>>().join(","), probes.join(",")),
+    };
+    format!("{{\"kind\":\"c08\",\"release\":{},\"n\":{},\"ng\":{},\"assign\":{:?},\"max_pdi\":[{},{},{}],\"devs\":[{}],{},\"frames\":{}}}", release, n, ng, assign, PA, PB, PC, devj.join(","), body, log.len())
+}
+
 fn main() {
     let args: Vec<String> = std::env::args().collect();
     let mode = args[1].clone();
@@ -82,6 +291,6 @@ fn main() {
     std::panic::set_hook(Box::new(|_| {}));
     let mut rng = Rng::new(seed);
     for _ in 0..n {
-        println!("{}", match mode.as_str() { _ => c09_case(&mut rng, release) });
+        println!("{}", match mode.as_str() { "c08" => c08_case(&mut rng, release), _ => c09_case(&mut rng, release) });
     }
 }
